@@ -65,6 +65,15 @@ Theorem C16_timed_calls_end_silent_refuted :
 Proof. exact timed_calls_end_silent_refuted. Qed.
 Print Assumptions C16_timed_calls_end_silent_refuted.
 
+(* the same witness under the name DESIGN.md section 4 gives it *)
+Theorem C16_beep_zero_not_silent_refuted :
+  exists pin neg tbl default ops o,
+    timed o = true /\
+    get_state (fst (run pin neg tbl (init default) (ops ++ [o]))) = true /\
+    sounding (snd (run pin neg tbl (init default) (ops ++ [o]))) = true.
+Proof. exact timed_calls_end_silent_refuted. Qed.
+Print Assumptions C16_beep_zero_not_silent_refuted.
+
 (* every melody name the parser accepts is inside the guard on the generated emitter table *)
 Theorem C16_accepted_melody_in_guard : forall name l,
   parser_melody parser_melody_names name = Some l ->
@@ -106,6 +115,16 @@ Theorem C16_sweep : forall pin neg tbl st s e d steps,
   sounding_from true tr = false.
 Proof. exact sweep_protocol. Qed.
 Print Assumptions C16_sweep.
+
+(* the delays one by one: every step waits floor(duration) / steps ms (integer division; delay(0) when the
+   quotient is 0 but the duration is not), and a zero duration never delays *)
+Theorem C16_sweep_delays : forall pin neg tbl st s e d steps,
+  qle q0 d = true ->
+  let n := Z.max 1 (c_int steps) in
+  delays (snd (dstep pin neg tbl st (Sweep s e d steps))) =
+  if 0 <? Qfloor d then repeat (Qfloor d / n) (Z.to_nat n) else [].
+Proof. exact sweep_delays. Qed.
+Print Assumptions C16_sweep_delays.
 
 (* the duration bound needs d >= 0: a negative run-time int duration wraps around *)
 Theorem C16_sweep_negative_duration_refuted :
